@@ -257,6 +257,7 @@ class TableGuard:
         self.canon0 = module_table_canon()
         self.fast0 = None
         self.arr_ids = {id(v) for v in module_tables().values() if _has_array(v)}
+        self.scratch_keys = {k for k, v in module_tables().items() if isinstance(v, (dict, list, set)) and len(v) == 0}
         self.layout = self._layout()
         self.bound = dict(module_tables())
         self.fast0 = self._fast()
@@ -312,14 +313,27 @@ class TableGuard:
             parts.append((k, i, memo[i]))
         return hash(tuple(parts))
 
-    def changed(self):
-        """List of differences against the pristine snapshot (empty when untouched)."""
+    def changed(self, tables_only=False):
+        """List of differences against the pristine snapshot (empty when untouched).
+
+        tables_only=True leaves out *scratch state*: module-level names that did not exist at import
+        and containers that were empty at import (memo caches, scratch buffers).  Such state is not one
+        of the tables the property names; whether it is harmful is judged by comparing outcomes, and
+        restore() resets it so that every run starts cold."""
         if self.fast0 is not None and self._fast() == self.fast0:
             return []
         now = module_table_canon()
         if now == self.canon0:
             return []
-        return module_table_diff(self.canon0, now)
+        if not tables_only:
+            return module_table_diff(self.canon0, now)
+        before = {k: v for k, v in self.canon0.items() if k not in self.scratch_keys}
+        after = {k: v for k, v in now.items() if k in before}
+        return module_table_diff(before, after)
+
+    def scratch_changed(self):
+        """True when only scratch state (see changed) differs from the snapshot."""
+        return bool(self.changed()) and not self.changed(tables_only=True)
 
     def restore(self):
         for _k, (live, saved) in self.snap.items():
